@@ -14,7 +14,7 @@ from .e2e import generate_client
 SCHEMA = """
 interface Node { id: ID! }
 interface Named { name: String }
-enum Role { ADMIN USER }
+enum Role { ADMIN USER LEGACY @deprecated(reason: "old") }
 type Profile { bio: String tags: [String!] matrix: [[Int!]] }
 scalar DateTime
 interface Labeled { label: String  stamp: DateTime }
@@ -50,6 +50,8 @@ OPS = {
     "inline_fragments_behind_two_fragment_levels": "fragment Inner on Node { ... on Bot { model } ... on User { name } } fragment Mid on Node { id ...Inner ... on Ghost { id } } fragment Outer on Node { ...Mid ... on Ghost { id } } query Q { node { ...Outer } nodes { ...Outer } }",
     "fragment_with_nested_object_used_directly_and_inside_another": "fragment WithProfile on User { id profile { bio tags } } fragment Wrapper on User { name ...WithProfile best { ...WithProfile } } query Q { me { ...WithProfile } opt { ...Wrapper } }",
     "underscore_prefixed_keys": "query Q { node { id ... on Bot { _rev _links _model: model } } me { _id: id _n: name } }",
+    "fragment_chain_of_depth_three": "fragment Account on User { id ...Profile } fragment Profile on User { name ...Identity } fragment Identity on User { role score } query Q { me { ...Account } opt { ...Profile } }",
+    "typename_on_object_positions": "query Q { me { __typename id best { __typename name } friends { __typename id } } opt { __typename } }",
     "skip_with_literal_conditions": "query Q { me { id name @skip(if: true) score @include(if: false) role @include(if: true) seen @skip(if: false) } }",
 }
 KNOWN_OPS = {
@@ -101,7 +103,8 @@ def _value(rt, fname, ch, depth, schema):
     if isinstance(rt, G.GraphQLScalarType):
         return {"ID": "7", "String": "s", "Int": 3, "Float": 1.5, "Boolean": True, "DateTime": "2020-01-02T03:04:05"}[rt.name]
     if isinstance(rt, G.GraphQLEnumType):
-        return "ADMIN"
+        names = list(rt.values)
+        return names[-1] if ch["flag"] and ch["length"] == 2 else names[0]      # also the last (deprecated) value
     if depth > 3:
         return None
     if isinstance(rt, (G.GraphQLInterfaceType, G.GraphQLUnionType)):
